@@ -250,6 +250,9 @@ void add_type(Node *node) {
   case ND_COND:
     if (node->then->ty->kind == TY_VOID || node->els->ty->kind == TY_VOID) {
       node->ty = ty_void;
+    } else if (node->then->ty->kind == TY_STRUCT || node->then->ty->kind == TY_UNION) {
+      // No arithmetic conversions for aggregates.
+      node->ty = node->then->ty;
     } else {
       usual_arith_conv(&node->then, &node->els);
       node->ty = node->then->ty;
